@@ -365,6 +365,24 @@ func genAgg(seed uint64, tier string, emphasis int) *plan.Plan {
 		}
 		forceNode = -1
 	}
+	if emphasis == 2 {
+		// One inter-node flow whose source node could not resolve the source Pod: its records name no
+		// Pod at all (aggRec.Unres). Such a record and one of the destination node are both sides. The
+		// per-node statistics of these records are not judged by this check (C05's clauses are counted
+		// only). A stream of its own keeps the plans of older seeds as they were.
+		r3 := rand.New(rand.NewPCG(seed, 0xc07a))
+		if r3.IntN(4) == 0 {
+			var cand []int
+			for k, f := range flows {
+				if f.cat == catInter || f.cat == catInterIngDrop {
+					cand = append(cand, k)
+				}
+			}
+			if len(cand) > 0 {
+				pl.Cfg["unres_key"] = int64(1 + cand[r3.IntN(len(cand))])
+			}
+		}
+	}
 	if r.IntN(5) == 0 {
 		// records through the built-in worker pool, workers interleaved by the scheduler
 		pl.Cfg["pool"] = 1
